@@ -105,7 +105,7 @@ pub fn decode(b: &[u8]) -> Result<(RMsg, usize), RErr> {
         if let Some(n) = name.take() {
             let vals = stack.pop().unwrap_or_default();
             if let Some(g) = cur {
-                g.1.retain(|(k, _)| *k != n);
+                // wire order, duplicates kept (as_maps applies "last wins"; uniqueness is checked separately)
                 g.1.push((n, lov(vals)));
             }
             stack.push(vec![]);
